@@ -6,6 +6,7 @@
 mod ast;
 mod dec;
 mod e1;
+mod families;
 mod fw;
 mod model;
 mod props;
